@@ -713,7 +713,10 @@ vbi_draw_vt_page_region(vbi_page *pg,
 					else /* shouldn't happen */
 						draw_blank(canvas_type, canvas, rowstride,
 							   ((canvas_type == 1) ? pen.pal8[0]: pen.rgba[0]),
-                                                           TCW, TCH);
+							   (VBI_DOUBLE_WIDTH == size
+							    || VBI_DOUBLE_SIZE == size
+							    || VBI_DOUBLE_SIZE2 == size) ?
+							   TCW * 2 : TCW, TCH);
 				} else {
 					draw_char (canvas_type,
 						   canvas,
@@ -1212,6 +1215,7 @@ draw_row_indexed(vbi_page * pg, vbi_char * ac, uint8_t * canvas, uint8_t * pen,
                 = is_cc ? draw_char_cc_indexed : draw_char_vt_indexed;
 	int column;
         int unicode;
+	int bw;
 
         for (column = 0; column < pg->columns ; canvas += cw, column++, ac++) {
 				vbi_char ac1;
@@ -1249,13 +1253,22 @@ draw_row_indexed(vbi_page * pg, vbi_char * ac, uint8_t * canvas, uint8_t * pen,
 
 				unicode = (ac->conceal & conceal) ? 0x0020u : ac->unicode;
 
+				/* A blank in place of a double width character
+				   must cover the cell to the right as well,
+				   which is skipped above. */
+				bw = cw;
+				if (VBI_DOUBLE_WIDTH == ac->size
+				    || VBI_DOUBLE_SIZE == ac->size
+				    || VBI_DOUBLE_SIZE2 == ac->size)
+					bw = cw * 2;
+
 				switch (ac->opacity) {
 				case VBI_TRANSPARENT_SPACE:
 					/*
 					 *  Transparent foreground and background.
 					 */
                         draw_blank(sizeof(*canvas), canvas,
-						   rowstride, VBI_TRANSPARENT_BLACK, cw, ch);
+						   rowstride, VBI_TRANSPARENT_BLACK, bw, ch);
 					break;
 
 				case VBI_TRANSPARENT_FULL:
@@ -1277,7 +1290,7 @@ draw_row_indexed(vbi_page * pg, vbi_char * ac, uint8_t * canvas, uint8_t * pen,
 									  font, unicode & 0x3F, ac->size);
 						else /* shouldn't happen */
 							draw_blank(sizeof(*canvas), (uint8_t *) canvas,
-								   rowstride, VBI_TRANSPARENT_BLACK, cw, ch);
+								   rowstride, VBI_TRANSPARENT_BLACK, bw, ch);
 					} else {
 						pen[0] = VBI_TRANSPARENT_BLACK;
 						pen[1] = ac->foreground;
@@ -1305,7 +1318,7 @@ draw_row_indexed(vbi_page * pg, vbi_char * ac, uint8_t * canvas, uint8_t * pen,
 									  font, unicode & 0x3F, ac->size);
 						else /* shouldn't happen */
 							draw_blank(sizeof(*canvas), (uint8_t *) canvas,
-								   rowstride, VBI_TRANSPARENT_BLACK, cw, ch);
+								   rowstride, VBI_TRANSPARENT_BLACK, bw, ch);
 					} else {
 						pen[0] = ac->background + 40; /* translucent */
 						pen[1] = ac->foreground;
@@ -1327,7 +1340,7 @@ draw_row_indexed(vbi_page * pg, vbi_char * ac, uint8_t * canvas, uint8_t * pen,
 									  font, unicode & 0x3F, ac->size);
 						else /* shouldn't happen */
 							draw_blank(sizeof(*canvas), (uint8_t *) canvas,
-								   rowstride, pen[0], cw, ch);
+								   rowstride, pen[0], bw, ch);
 					} else
 						draw_char_indexed(canvas, rowstride, pen, unicode, ac);
 					break;
